@@ -372,29 +372,33 @@ fn parse_exponent(&mut self, positive: bool, significand: u64, starting_exp: i32
     }
     … f64_from_parts(positive, significand, final_exp) }
 ```
-`rest` follows the `e`/`E`. -/
+`rest` follows the `e`/`E` (`scanExp`), resp. the sign (`scanExpDigits`). -/
+def scanExpDigits (env : Env) (neg : Bool) (int : Bytes) (frac : Option Bytes) (expNeg : Bool) (rest : Bytes) (pos : Nat) :
+    Res Model.Num.Parts :=
+  match rest with
+  | [] => atEof env .EofWhileParsingValue pos
+  | d :: r2 =>
+    if !Machine.isDigit d then .err .InvalidNumber (pos + 1)
+    else
+      let eds := (digitsOf r2).1
+      let r3 := (digitsOf r2).2
+      let allZero := (int ++ frac.getD []).all (· == 0x30)
+      match expOverflowIdx (Model.Num.dig d) 1 eds with
+      | some k =>
+        if !allZero && !expNeg then .err .NumberOutOfRange (pos + k + 1)
+        else if r3.isEmpty && env.flt then .io
+        else .ok (mkParts neg int frac (some (expNeg, d :: eds))) r3 (pos + 1 + eds.length)
+      | none =>
+        if r3.isEmpty && env.flt then .io
+        else .ok (mkParts neg int frac (some (expNeg, d :: eds))) r3 (pos + 1 + eds.length)
+
 def scanExp (env : Env) (neg : Bool) (int : Bytes) (frac : Option Bytes) (rest : Bytes) (pos : Nat) : Res Model.Num.Parts :=
   match rest with
   | [] => atEof env .EofWhileParsingValue pos
   | c :: r =>
-    let sgn : Bool × Bytes × Nat :=
-      if c == 0x2b then (false, r, pos + 1) else if c == 0x2d then (true, r, pos + 1) else (false, c :: r, pos)
-    match sgn.2.1 with
-    | [] => atEof env .EofWhileParsingValue sgn.2.2
-    | d :: r2 =>
-      if !Machine.isDigit d then .err .InvalidNumber (sgn.2.2 + 1)
-      else
-        let eds := (digitsOf r2).1
-        let r3 := (digitsOf r2).2
-        let allZero := (int ++ frac.getD []).all (· == 0x30)
-        match expOverflowIdx (Model.Num.dig d) 1 eds with
-        | some k =>
-          if !allZero && !sgn.1 then .err .NumberOutOfRange (sgn.2.2 + k + 1)
-          else if r3.isEmpty && env.flt then .io
-          else .ok (mkParts neg int frac (some (sgn.1, d :: eds))) r3 (sgn.2.2 + 1 + eds.length)
-        | none =>
-          if r3.isEmpty && env.flt then .io
-          else .ok (mkParts neg int frac (some (sgn.1, d :: eds))) r3 (sgn.2.2 + 1 + eds.length)
+    if c == 0x2b then scanExpDigits env neg int frac false r (pos + 1)
+    else if c == 0x2d then scanExpDigits env neg int frac true r (pos + 1)
+    else scanExpDigits env neg int frac false (c :: r) pos
 
 /-- after the integer digits: ```rust
 fn parse_number(&mut self, positive: bool, significand: u64) -> Result<ParserNumber> {
